@@ -6,7 +6,8 @@ import JsonV.Lemmas.CanonTree
 import JsonV.Lemmas.CanonSort
 
 namespace JsonV.Lemmas.CanonForm
-open JsonV JsonV.Fmt JsonV.Canon JsonV.Model JsonV.Model.Utf8
+open JsonV JsonV.Canon JsonV.Model JsonV.Model.Utf8
+open JsonV.Fmt hiding strOK respell
 open JsonV.Lemmas.CanonTree JsonV.Lemmas.CanonAtom JsonV.Lemmas.CanonSort
 
 /-! ### predicates on trees -/
